@@ -131,6 +131,7 @@ func Profile(name string) Knobs {
 	case "gangs": // C03
 		k.PGang, k.GangMax, k.PSubGroups, k.PElastic = 0.8, 6, 0.4, 0.4
 		k.PStaleGang = 0.12
+		k.PEarlyRecreate = 0.35
 		k.Fill, k.PTerminating = 0.5, 0.35
 		k.PFaults = 0
 		k.KindWeights = map[string]int{"cpu": 2, "whole": 6, "fraction": 2, "gpumem": 1}
@@ -293,6 +294,7 @@ func GenerateWith(k Knobs, profile string, seed int64, index int, tier string) *
 	if !k.Closed && k.PEarlyRecreate > 0 && g.p(k.PEarlyRecreate) {
 		g.c.World.Closed, g.c.World.EarlyRecreate = true, true
 		g.c.World.MaxTerminateCycles = g.in(1, 2)
+		g.c.World.PRecreateNow = pick(g, []float64{0, 0.5, 0.3})
 		g.c.Cycles += 2
 	}
 	if g.p(k.PFaults) {
